@@ -102,6 +102,13 @@ class Prop(PropBase):
                 alone = [np.asarray(x.data) for x in (lin, circ, st, inten)]
                 joint = dask.compute(lin.data, circ.data, st.data, inten.data, scheduler="synchronous")
                 out["joint_same"] = bool(all(np.array_equal(a, b) for a, b in zip(alone, joint)))
+                # ... and a second, different signal of the same shape converted the same way in the same graph
+                zb = type(z).like(z, data * (0.5 + 0.25j) + 1)
+                convs = [s_.to_linear() for s_ in (z, zb)] + [s_.to_circular() for s_ in (z, zb)] + [s_.to_stokes() for s_ in (z, zb)]
+                alone2 = [np.asarray(x.data.compute(scheduler="synchronous")) for x in convs]
+                joint2 = dask.compute(*[x.data for x in convs], scheduler="synchronous")
+                out["joint_same"] = out["joint_same"] and bool(all(np.array_equal(a, b) for a, b in zip(alone2, joint2))) \
+                    and not np.array_equal(alone2[0], alone2[1])
             except Exception as e:  # noqa
                 out["hist_err"] = err_name(e)
         # the conversions are functions of the CURRENT samples and basis label: repeat them on the same object after an
